@@ -71,6 +71,7 @@ type FuncSpec struct {
 	Allocates map[string]bool
 	DeadReturn map[int]bool // return statements (by ordinal) the contract declares unreachable
 	Binds      map[string]map[string]string // callee -> ghost parameter -> caller expression
+	Locals     []string // names defined in the function (parameters, results, locals, in source order) when the contract was written
 	Trusted  bool
 	Pure     bool
 	NoSafety bool // do not emit zero-annotation safety obligations
@@ -130,7 +131,7 @@ var clauseKeywords = map[string]bool{
 	"props": true, "trusted": true, "pure": true, "requires": true, "ensures": true,
 	"modifies": true, "ghost": true, "use": true, "on": true, "after": true, "before": true,
 	"loop": true, "invariant": true, "hint": true, "preserved": true, "apply": true, "decreases": true, "nonnil": true, "lock": true,
-	"lockinv": true, "guarantee": true, "rely": true, "fresh": true, "exit": true, "flows": true, "assigns": true, "assumes": true, "holds": true, "allocates": true, "deadreturn": true, "bind": true, "nilable": true, "nosafety": true, "using": true,
+	"lockinv": true, "guarantee": true, "rely": true, "fresh": true, "exit": true, "flows": true, "assigns": true, "assumes": true, "holds": true, "allocates": true, "deadreturn": true, "bind": true, "locals": true, "nilable": true, "nosafety": true, "using": true,
 }
 
 type rawClause struct {
@@ -364,6 +365,15 @@ func parseContractFile(path string, requirePrefix bool) (*ContractFile, error) {
 				curF.Binds[cal] = map[string]string{}
 			}
 			curF.Binds[cal][gh] = strings.TrimSpace(rc.rest[eqi+1:])
+		case "locals":
+			// locals a b c: the identifiers the function defined, in source
+			// order, when this contract was written (generated, see `govc
+			// locals`).  If the code later renames some of them (same number, same
+			// order) the contract is read with the new names.
+			if curF == nil {
+				return nil, errf(rc, "locals outside func")
+			}
+			curF.Locals = strings.Fields(rc.rest)
 		case "deadreturn":
 			// deadreturn 3 4: these return statements are unreachable by design
 			if curF == nil {
